@@ -1,0 +1,118 @@
+//go:build verif
+
+package heap
+
+import (
+	"fmt"
+	"strings"
+)
+
+// VerifDump prints the internal state of a binary, binomial or Fibonacci heap with int keys and int values
+// in a canonical form (no addresses):
+//
+//   - binary:    n=<n> cap=<len(heap)> [<cell> <cell> …]   cell = "_" (nil) | key:val
+//   - binomial:  n=<n> [<tree> <tree> …]                   root list from head along sibling
+//   - fibonacci: n=<n> [<tree> <tree> …]                   root list from ext along next, once round
+//
+// where tree = key:val/order(child child …) with the children from n.child along sibling resp. next.
+// A broken prev pointer or an unclosed circular list in a Fibonacci heap is printed as "!prev" / "!open".
+func VerifDump(h any) string {
+	switch h := h.(type) {
+	case *binary[int, int]:
+		cells := make([]string, len(h.heap))
+		for i, c := range h.heap {
+			if c == nil {
+				cells[i] = "_"
+			} else {
+				cells[i] = fmt.Sprintf("%d:%d", c.Key, c.Val)
+			}
+		}
+		return fmt.Sprintf("n=%d cap=%d [%s]", h.n, len(h.heap), strings.Join(cells, " "))
+
+	case *binomial[int, int]:
+		var forest func(n *binomialNode[int, int]) string
+		tree := func(n *binomialNode[int, int]) string {
+			s := fmt.Sprintf("%d:%d/%d", n.key, n.val, n.order)
+			if n.child != nil {
+				s += "(" + forest(n.child) + ")"
+			}
+			return s
+		}
+		forest = func(n *binomialNode[int, int]) string {
+			var parts []string
+			for ; n != nil; n = n.sibling {
+				parts = append(parts, tree(n))
+			}
+			return strings.Join(parts, " ")
+		}
+		return fmt.Sprintf("n=%d [%s]", h.n, forest(h.head))
+
+	case *fibonacci[int, int]:
+		budget := 1 << 22
+		var ring func(n *fibonacciNode[int, int]) string
+		tree := func(n *fibonacciNode[int, int]) string {
+			s := fmt.Sprintf("%d:%d/%d", n.key, n.val, n.degree)
+			if n.child != nil {
+				s += "(" + ring(n.child) + ")"
+			}
+			return s
+		}
+		ring = func(start *fibonacciNode[int, int]) string {
+			var parts []string
+			for n := start; n != nil; {
+				if budget--; budget < 0 {
+					parts = append(parts, "!open")
+					break
+				}
+				parts = append(parts, tree(n))
+				if n.next == nil {
+					parts = append(parts, "!open")
+					break
+				}
+				if n.next.prev != n {
+					parts = append(parts, "!prev")
+				}
+				if n = n.next; n == start {
+					break
+				}
+			}
+			return strings.Join(parts, " ")
+		}
+		return fmt.Sprintf("n=%d [%s]", h.n, ring(h.ext))
+	}
+
+	return fmt.Sprintf("?%T", h)
+}
+
+// VerifMaxDegree is fibonacci.maxDegree for a heap holding n items.
+func VerifMaxDegree(n int) int {
+	h := &fibonacci[int, int]{n: n}
+	return h.maxDegree()
+}
+
+// VerifRoots returns (value, order/degree) of every root of a binomial or Fibonacci heap in root-list order.
+func VerifRoots(h any) [][2]int {
+	var out [][2]int
+	switch h := h.(type) {
+	case *binomial[int, int]:
+		for n := h.head; n != nil; n = n.sibling {
+			out = append(out, [2]int{n.val, n.order})
+		}
+	case *fibonacci[int, int]:
+		for n := h.ext; n != nil; {
+			out = append(out, [2]int{n.val, n.degree})
+			if n = n.next; n == h.ext || len(out) > 1<<22 {
+				break
+			}
+		}
+	}
+	return out
+}
+
+// VerifCap returns len(heap) of a binary heap (-1 for anything else).
+func VerifCap(h any) int {
+	if b, ok := h.(*binary[int, int]); ok {
+		return len(b.heap)
+	}
+	return -1
+}
